@@ -1,4 +1,5 @@
 mod client;
+mod session;
 mod daemon;
 mod shm;
 mod ra;
@@ -21,6 +22,7 @@ fn exec_line(line: &str) -> String {
         Some("client") => client::exec(&toks),
         Some("client2") => client::exec2(&toks),
         Some("corder") => client::exec_order(&toks),
+        Some("session") => session::exec(line),
         Some("extract") => daemon::exec_extract(&toks),
         Some("gen") => shm::exec_gen(&toks),
         Some("sl") => ra::exec_sl(line),
@@ -66,6 +68,13 @@ fn main() {
             for g in client::grid() { emit(g); }
             let mut rng = rng::Rng::new(seed);
             for _ in 0..count { emit(client::gen_case(&mut rng)); }
+        }
+        Some("session") => {
+            let seed: u64 = args[2].parse().unwrap();
+            let count: usize = args[3].parse().unwrap();
+            for g in session::grid() { emit(g); }
+            let mut rng = rng::Rng::new(seed ^ 0x5e55);
+            for _ in 0..count { emit(session::gen_case(&mut rng)); }
         }
         Some("corder") => {
             let seed: u64 = args[2].parse().unwrap();
